@@ -64,7 +64,10 @@ func c15String(r *rand.Rand) (s string, valid bool) {
 		n := r.IntN(8)
 		rs := make([]rune, n)
 		for i := range rs {
-			rs[i] = []rune{'a', 'é', 0x2028, 0x2029, '"', '\\', 0x1F600, 0xFFFD, 0x7f, 0x80, 0xD7FF, 0xE000, 1, 31}[r.IntN(14)]
+			// (after the classics: code points whose UTF-8 shares its first and last byte, or its first two,
+			// with U+2028 / U+2029, which is all a careless recogniser looks at)
+			rs[i] = []rune{'a', 'é', 0x2028, 0x2029, '"', '\\', 0x1F600, 0xFFFD, 0x7f, 0x80, 0xD7FF, 0xE000, 1, 31,
+				0x20A9, 0x2728, 0x2229, 0x2228, 0x21A9, 0x2669, 0x2027, 0x202A, 0x2000, 0x203F, 0x1028, 0x3028, 0xE2, 0xA8}[r.IntN(28)]
 		}
 		s = string(rs)
 	case 7:
